@@ -242,10 +242,23 @@ def translate_rtransform(tree):
         methods.append(e.attr)
     if _src(body[1].value) != f"_transform_ode_from_derivs(coeff_a, {lst}, x)":
         _fail(body[1], "unexpected call")
-    out = ["/-! ### `_transform_ode_from_rtransform` -/", "",
+    if len(methods) != 3:
+        _fail(a, "expected three transform methods (derivs[0..2])")
+    out = ["/-! ### `_transform_ode_from_derivs` (set-up statements) and `_transform_ode_from_rtransform`, one point -/", "",
            "/-- The transform methods whose values are `derivs[0], derivs[1], derivs[2]`, evaluated at the "
            "same\npoint `x` at which the coefficients `a_k` are evaluated. -/",
-           "def rtransformDerivMethods : List String := [" + ", ".join(f'"{m}"' for m in methods) + "]", ""]
+           "def rtransformDerivMethods : List String := [" + ", ".join(f'"{m}"' for m in methods) + "]", "",
+           "/-- `derivs = np.array([dev(x) for dev in deriv_transformation])`, `coeff_a_mtr = "
+           "_evaluate_coeffs_on_points(x, coeffs)`,\nthen the rows of `coeff_b` (orders 1–3). -/",
+           "def transformOdeFromDerivs (coeffs : List (Coeff K)) (deriv_transformation : List (K → K)) (x : K) :",
+           "    Option (List K) := do",
+           "  let derivs := deriv_transformation.map fun dev => dev x",
+           "  let coeff_a_mtr := evaluateCoeffsOnPoints x coeffs",
+           "  coeffB coeff_a_mtr (← derivs[0]?) (← derivs[1]?) (← derivs[2]?)", "",
+           f"/-- `{lst} = [" + ", ".join(f"tf.{m}" for m in methods) + f"]`; `return _transform_ode_from_derivs(coeff_a, {lst}, x)`. -/",
+           "def transformOdeFromRtransform (coeff_a : List (Coeff K)) (tf : TransformFns K) (x : K) : Option (List K) :=",
+           f"  let {lst} := [" + ", ".join(f"tf.{m}" for m in methods) + "]",
+           f"  transformOdeFromDerivs coeff_a {lst} x", ""]
     return out
 
 
@@ -365,11 +378,9 @@ def translate_rearrange(tree):
 # ----------------------------------------------------------------------------------------------
 def translate_compose(tree):
     f = _func(tree, "_transform_and_rearrange_to_explicit_ode")
-    if [a.arg for a in f.args.args] != ["x", "y", "coeff_a", "tf", "fx_func"]:
+    params = [a.arg for a in f.args.args]
+    if params != ["x", "y", "coeff_a", "tf", "fx_func"]:
         raise Untranslatable("_transform_and_rearrange_to_explicit_ode: unexpected signature")
-    calls = {
-        "_transform_ode_from_rtransform(coeff_a, tf, x)": "(← transformOde x)",
-    }
     lines, names = [], set()
     returned = False
     for s in _body(f):
@@ -377,15 +388,19 @@ def translate_compose(tree):
             _fail(s, "statement after return")
         if isinstance(s, ast.Assign) and len(s.targets) == 1 and isinstance(s.targets[0], ast.Name):
             n, v = s.targets[0].id, s.value
-            src = _src(v)
-            if src in calls:
-                lines.append(f"  let {n} := {calls[src]}")
+            if (isinstance(v, ast.Call) and _src(v.func) == "_transform_ode_from_rtransform" and len(v.args) == 3
+                    and not v.keywords and all(isinstance(a, ast.Name) and a.id in params for a in v.args)):
+                a0, a1, a2 = (a.id for a in v.args)
+                if (a0, a1) != ("coeff_a", "tf"):
+                    _fail(s, "coefficients / transform are not passed as the first two arguments")
+                lines.append(f"  let {n} := (← transformOdeFromRtransform {a0} {a1} {a2})")
                 names.add(n)
                 continue
             if (isinstance(v, ast.Call) and _src(v.func) == "_rearrange_to_explicit_ode" and len(v.args) == 3
                     and not v.keywords and _src(v.args[0]) == "y" and isinstance(v.args[1], ast.Name)
                     and v.args[1].id in names and isinstance(v.args[2], ast.Call)
                     and _src(v.args[2].func) == "fx_func" and len(v.args[2].args) == 1
+                    and not v.args[2].keywords
                     and isinstance(v.args[2].args[0], ast.Name) and v.args[2].args[0].id == "x"):
                 lines.append(f"  let {n} := (← rearrangeToExplicitOde y {v.args[1].id} (fx_func x))")
                 names.add(n)
@@ -398,10 +413,11 @@ def translate_compose(tree):
         _fail(s, "unsupported statement")
     if not returned:
         raise Untranslatable("_transform_and_rearrange_to_explicit_ode: no return")
-    out = ["/-! ### `_transform_and_rearrange_to_explicit_ode` -/", "",
-           "/-- `transformOde x` stands for `_transform_ode_from_rtransform(coeff_a, tf, x)` (the rows of `coeff_b` "
-           "at the\npoint `x` of the *original* variable); the right-hand side `fx_func` is evaluated at the same `x`. -/",
-           "def transformAndRearrange (transformOde : K → Option (List K)) (fx_func : K → K) (x : K) (y : List K) :",
+    out = ["/-! ### `_transform_and_rearrange_to_explicit_ode` (one point) -/", "",
+           "/-- The coefficients `coeff_b` of the transformed equation (`_transform_ode_from_rtransform`) and the "
+           "right-hand side\n`fx_func` are evaluated at the same point `x` (a point of the *original* variable). -/",
+           "def transformAndRearrange (x : K) (y : List K) (coeff_a : List (Coeff K)) (tf : TransformFns K) "
+           "(fx_func : K → K) :",
            "    Option K := do"] + lines + [""]
     return out
 
@@ -507,7 +523,775 @@ def translate_matrix(tree):
            f"def derivMatrixRaises (order numb_derivs : Nat) : Bool := {guard}", "",
            "/-- The loop nest; `bell n k` stands for `float(bell(n, k, derivs_at_pt))` (SymPy). -/",
            "def derivMatrix (bell : Nat → Nat → K) (order : Nat) : Mat K :=",
-           "  let deriv_transf : Mat K := matZeros"] + body_lines + ["  deriv_transf", ""]
+           "  let deriv_transf : Mat K := matZeros"] + body_lines + ["  deriv_transf", "",
+           "/-- `_derivative_transformation_matrix(deriv_func_list, point, order)` when the guard does not fire:\n"
+           "`derivs_at_pt = np.array([dev(point) for dev in deriv_func_list])`, entries `float(bell(·, ·, derivs_at_pt))`. -/",
+           "def derivativeTransformationMatrix (deriv_func_list : List (K → K)) (point : K) (order : Nat) : Mat K :=",
+           "  let derivs_at_pt := deriv_func_list.map fun dev => dev point",
+           "  derivMatrix (fun n k => bell (seqOfList derivs_at_pt) n k) order", ""]
+    return out
+
+
+# ----------------------------------------------------------------------------------------------
+# _evaluate_coeffs_on_points
+# ----------------------------------------------------------------------------------------------
+def translate_eval_coeffs(tree):
+    f = _func(tree, "_evaluate_coeffs_on_points")
+    if [a.arg for a in f.args.args] != ["x", "coeff"]:
+        raise Untranslatable("_evaluate_coeffs_on_points: unexpected signature")
+    body = _body(f)
+    if not (len(body) == 3 and _src(body[0]) == "coeff_mtr = np.zeros((len(coeff), x.size), dtype=float)"
+            and isinstance(body[1], ast.For) and _src(body[2]) == "return coeff_mtr"):
+        raise Untranslatable("_evaluate_coeffs_on_points: unexpected body")
+    loop = body[1]
+    if not (_src(loop.target) == "(i, val)" and _src(loop.iter) == "enumerate(coeff)" and not loop.orelse
+            and len(loop.body) == 1 and isinstance(loop.body[0], ast.If)):
+        _fail(loop, "loop is not `for i, val in enumerate(coeff): if …`")
+    top = loop.body[0]
+    if not (_src(top.test) == "isinstance(val, Number)" and len(top.orelse) == 1 and isinstance(top.orelse[0], ast.If)
+            and _src(top.orelse[0].test) == "callable(val)" and len(top.orelse[0].orelse) == 1
+            and isinstance(top.orelse[0].orelse[0], ast.Raise)):
+        _fail(top, "branches are not `isinstance(val, Number)` / `callable(val)` / raise")
+
+    def update(stmts, is_fn):
+        if len(stmts) != 1:
+            _fail(stmts[0], "branch is not a single statement")
+        st = stmts[0]
+        if not (isinstance(st, (ast.AugAssign, ast.Assign))):
+            _fail(st, "branch does not update coeff_mtr[i]")
+        tgt = st.target if isinstance(st, ast.AugAssign) else st.targets[0]
+        if _src(tgt) != "coeff_mtr[i]":
+            _fail(st, "target is not coeff_mtr[i]")
+
+        def tr(e):
+            c = _int_const(e)
+            if c is not None and c >= 0:
+                return _nat(c)
+            if isinstance(e, ast.Name) and e.id == "val" and not is_fn:
+                return "val"
+            if (is_fn and isinstance(e, ast.Call) and isinstance(e.func, ast.Name) and e.func.id == "val"
+                    and len(e.args) == 1 and not e.keywords and _src(e.args[0]) == "x"):
+                return "(val x)"
+            if isinstance(e, ast.UnaryOp) and isinstance(e.op, ast.USub):
+                return f"(-{tr(e.operand)})"
+            if isinstance(e, ast.BinOp):
+                op = {ast.Add: "+", ast.Sub: "-", ast.Mult: "*", ast.Div: "/"}.get(type(e.op))
+                if op is None:
+                    _fail(e, "unsupported operator")
+                return f"({tr(e.left)} {op} {tr(e.right)})"
+            _fail(e, "unsupported expression in the coefficient row")
+        v = tr(st.value)
+        if isinstance(st, ast.Assign):
+            return v
+        op = {ast.Add: "+", ast.Sub: "-", ast.Mult: "*", ast.Div: "/"}.get(type(st.op))
+        if op is None:
+            _fail(st, "unsupported augmented assignment")
+        return f"(coeff_mtr_i {op} {v})"
+
+    num = update(top.body, False)
+    fn = update(top.orelse[0].body, True)
+    return ["/-! ### `_evaluate_coeffs_on_points` (one point) -/", "",
+            "/-- One row: `coeff_mtr[i]` starts as `np.zeros`; a number is added as it is, a callable is evaluated at `x`\n"
+            "(anything else: `TypeError`; the model is typed). -/",
+            "def evaluateCoeffOnPoint (x : K) (val : Coeff K) : K :=",
+            "  let coeff_mtr_i : K := ((0 : Nat) : K)",
+            "  match val with",
+            f"  | .const val => {num}",
+            f"  | .fn val => {fn}", "",
+            "def evaluateCoeffsOnPoints (x : K) (coeff : List (Coeff K)) : List K :=",
+            "  coeff.map (evaluateCoeffOnPoint x)", ""]
+
+
+# ----------------------------------------------------------------------------------------------
+# solve_ode_ivp, solve_ode_bvp, _transform_solution_to_original_domain: a small statement compiler
+# ----------------------------------------------------------------------------------------------
+# Types of Python values in the bodies (one evaluation point / one column of the solver's arrays):
+#   K scalar | vec List K | vecs List (List K) | nat | bool | tf TransformFns | tfopt Option TransformFns |
+#   mat (with the size it was built with) | fn K → K | fns List (K → K) | coeffs | res SolveResult | func | bc |
+#   bd List (Nat × Nat × K) | callable (the returned function) | opaque (passed on to SciPy only)
+LEAN_TY = {"K": "K", "vec": "List K", "vecs": "List (List K)", "nat": "Nat", "bool": "Bool", "tf": "TransformFns K",
+           "tfopt": "Option (TransformFns K)", "mat": "Mat K", "fn": "K → K", "fns": "List (K → K)",
+           "coeffs": "List (Coeff K)", "res": "SolveResult K", "func": "K → List K → Option (List K)",
+           "bc": "List K → List K → Option (List K)", "bd": "List (Nat × Nat × K)",
+           "callable": "K → Option (List K)"}
+
+ERR = {"ValueError": ".valueError", "NotImplementedError": ".notImplementedError", "IndexError": ".indexError"}
+
+
+class Comp:
+    """Compiles a list of Python statements into the lines of a Lean `do` block.
+    monad = 'opt' (Option: callbacks and per-point functions) or 'exc' (Except OdeErr: the public functions)."""
+
+    def __init__(self, fname, monad, closures=None, colvar=None):
+        self.fname, self.monad = fname, monad
+        self.closures = closures or {}      # python name of a nested def -> (lean text, type)
+        self.colvar = colvar                # (loop variable, point array) when compiling a per-column loop body
+        self.ntmp = 0
+        self.matsize = {}                   # lean name of a matrix -> text of its size
+        self.helpers = []                   # extracted helper definitions (lists of lines)
+        self.kwrecord = {}
+
+    # ---- expressions -------------------------------------------------------------------------------
+    def tmp(self):
+        self.ntmp += 1
+        return f"t{self.ntmp}"
+
+    def bind_opt(self, text, pre, ind):
+        """bind an Option-valued expression"""
+        t = self.tmp()
+        if self.monad == "opt":
+            pre.append(f"{ind}let {t} ← {text}")
+        else:
+            pre.append(f"{ind}let {t} ← liftO ({text})")
+        return t
+
+    def bind_idx(self, l, i, pre, ind):
+        t = self.tmp()
+        if self.monad == "opt":
+            pre.append(f"{ind}let {t} ← {l}[{i}]?")
+        else:
+            pre.append(f"{ind}let {t} ← idxE {l} {i}")
+        return t
+
+    def ex(self, e, env, pre, ind):
+        """-> (lean text, type)"""
+        c = _int_const(e)
+        if c is not None and isinstance(e, ast.Constant) and isinstance(e.value, int):
+            if c < 0:
+                _fail(e, "negative integer")
+            return str(c), "nat"
+        if isinstance(e, ast.Name):
+            if e.id in env:
+                return env[e.id]
+            if e.id in self.closures:
+                return self.closures[e.id]
+            _fail(e, f"{self.fname}: unknown name")
+        if isinstance(e, ast.BoolOp):
+            op = "&&" if isinstance(e.op, ast.And) else "||"
+            parts = []
+            for v in e.values:
+                t, ty = self.ex(v, env, pre, ind)
+                if ty != "bool":
+                    _fail(v, "operand of and/or is not a condition")
+                parts.append(t)
+            return "(" + f" {op} ".join(parts) + ")", "bool"
+        if isinstance(e, ast.Compare) and len(e.ops) == 1:
+            op, l, r = e.ops[0], e.left, e.comparators[0]
+            if isinstance(op, (ast.IsNot, ast.Is)) and isinstance(r, ast.Constant) and r.value is None:
+                t, ty = self.ex(l, env, pre, ind)
+                if ty != "tfopt":
+                    _fail(e, "`is None` test of something that is not the optional transform")
+                return (f"{t}.isSome" if isinstance(op, ast.IsNot) else f"{t}.isNone"), "bool"
+            lt, lty = self.ex(l, env, pre, ind)
+            rt, rty = self.ex(r, env, pre, ind)
+            if {lty, rty} <= {"nat", "int"}:
+                if isinstance(op, ast.NotEq):
+                    return f"({lt} != {rt})", "bool"
+                if isinstance(op, ast.Eq):
+                    return f"({lt} == {rt})", "bool"
+                sym = {ast.Gt: ">", ast.Lt: "<", ast.GtE: "≥", ast.LtE: "≤"}.get(type(op))
+                if sym and lty == rty == "nat":
+                    return f"decide ({lt} {sym} {rt})", "bool"
+            if lty == rty == "K":
+                if isinstance(op, ast.Lt):
+                    return f"decide ({lt} < {rt})", "bool"
+                if isinstance(op, ast.Gt):
+                    return f"decide ({rt} < {lt})", "bool"
+            _fail(e, "unsupported comparison")
+        if isinstance(e, ast.BinOp):
+            lt, lty = self.ex(e.left, env, pre, ind)
+            rt, rty = self.ex(e.right, env, pre, ind)
+            op = {ast.Add: "+", ast.Sub: "-", ast.Mult: "*", ast.Div: "/"}.get(type(e.op))
+            if op is None:
+                _fail(e, "unsupported operator")
+            if lty == rty == "nat" and op in "+-*":
+                return f"({lt} {op} {rt})", "nat"
+            if lty == rty == "K":
+                return f"({lt} {op} {rt})", "K"
+            _fail(e, "operands of different kinds")
+        if isinstance(e, ast.List):
+            items = [self.ex(x, env, pre, ind) for x in e.elts]
+            kinds = {ty for _, ty in items}
+            text = "[" + ", ".join(t for t, _ in items) + "]"
+            if kinds == {"fn"}:
+                return text, "fns"
+            if kinds == {"vec"}:
+                return text, "vecs"
+            if kinds == {"K"}:
+                return text, "vec"
+            _fail(e, "list literal of mixed / unsupported kinds")
+        if isinstance(e, ast.Attribute):
+            t, ty = self.ex(e.value, env, pre, ind)
+            if ty == "tf" and e.attr in ("transform", "inverse", "deriv", "deriv2", "deriv3"):
+                return f"{t}.{e.attr}", "fn"
+            if ty == "res" and e.attr == "status":
+                return f"{t}.status", "int"
+            if ty == "res" and e.attr == "sol":
+                return f"(fun pt => some ({t}.sol pt))", "callable"
+            _fail(e, "unsupported attribute")
+        if isinstance(e, ast.Subscript):
+            return self.subscript(e, env, pre, ind)
+        if isinstance(e, ast.Call):
+            return self.call(e, env, pre, ind)
+        _fail(e, f"{self.fname}: unsupported expression")
+
+    def subscript(self, e, env, pre, ind):
+        # transform.domain[k]
+        if isinstance(e.value, ast.Attribute) and e.value.attr == "domain":
+            t, ty = self.ex(e.value.value, env, pre, ind)
+            k = _int_const(e.slice)
+            if ty != "tf" or k not in (0, 1):
+                _fail(e, "unsupported use of .domain")
+            return f"{t}.domain.{k + 1}", "K"
+        sl = e.slice
+        # the point array of a per-column loop: pt[i]
+        if self.colvar and isinstance(e.value, ast.Name) and e.value.id == self.colvar[1]:
+            if isinstance(sl, ast.Name) and sl.id == self.colvar[0]:
+                return env[self.colvar[1]][0], "K"
+            _fail(e, f"the point array is not read at the loop index `{self.colvar[0]}`")
+        t, ty = self.ex(e.value, env, pre, ind)
+        two = isinstance(sl, ast.Tuple) and len(sl.elts) == 2
+        if two:
+            # a (rows, points) array, modelled by one column: the second index must select that column
+            row, col = sl.elts
+            col_ok = (isinstance(col, ast.Slice) and col.lower is None and col.upper is None and col.step is None) or \
+                     (self.colvar and isinstance(col, ast.Name) and col.id == self.colvar[0])
+            if ty != "vec" or not col_ok:
+                _fail(e, "second index does not select the column of the current point")
+            sl = row
+        if isinstance(sl, ast.Slice):
+            if sl.upper is not None or sl.step is not None or sl.lower is None:
+                _fail(e, "unsupported slice")
+            k = _int_const(sl.lower)
+            if k is None or k < 0 or ty != "vec":
+                _fail(e, "unsupported slice")
+            return f"({t}.drop {k})", "vec"
+        it, ity = self.ex(sl, env, pre, ind)
+        if ity != "nat":
+            _fail(e, "index is not a non-negative integer")
+        if ty == "vec":
+            return self.bind_idx(t, it, pre, ind), "K"
+        if ty == "vecs":
+            return self.bind_idx(t, it, pre, ind), "vec"
+        _fail(e, "unsupported subscript")
+
+    def args(self, call, env, pre, ind, kinds, kw=()):
+        if len(call.args) != len(kinds) or sorted(k.arg for k in call.keywords) != sorted(kw):
+            _fail(call, "unexpected arguments")
+        out = []
+        for a, want in zip(call.args, kinds):
+            t, ty = self.ex(a, env, pre, ind)
+            if ty != want:
+                _fail(a, f"argument of kind {ty}, expected {want}")
+            out.append(t)
+        return out
+
+    def call(self, e, env, pre, ind):
+        fn = _src(e.func)
+        if fn == "len" and len(e.args) == 1:
+            t, ty = self.ex(e.args[0], env, pre, ind)
+            if ty not in ("vec", "coeffs", "bd", "fns"):
+                _fail(e, "len of an unsupported object")
+            return f"{t}.length", "nat"
+        if fn in ("min", "max") and len(e.args) == 1 and not e.keywords:
+            (t,) = self.args(e, env, pre, ind, ["vec"])
+            if self.monad != "exc":
+                _fail(e, "min/max inside a callback")
+            v = self.tmp()
+            pre.append(f"{ind}let {v} ← py{fn.capitalize()} {t}")
+            return v, "K"
+        if fn in ("np.array", "list") and len(e.args) == 1 and not e.keywords:
+            t, ty = self.ex(e.args[0], env, pre, ind)
+            if ty != "vec":
+                _fail(e, "conversion of an unsupported object")
+            return t, "vec"
+        if fn == "np.vstack" and len(e.args) == 1 and isinstance(e.args[0], ast.Tuple):
+            parts = []
+            for x in e.args[0].elts:
+                if isinstance(x, ast.Starred):
+                    t, ty = self.ex(x.value, env, pre, ind)
+                    if ty != "vec":
+                        _fail(x, "starred argument is not a block of rows")
+                    parts.append(t)
+                else:
+                    t, ty = self.ex(x, env, pre, ind)
+                    if ty != "K":
+                        _fail(x, "row is not one value per point")
+                    parts.append(f"[{t}]")
+            return "(" + " ++ ".join(parts) + ")", "vec"
+        if fn == "np.hstack" and len(e.args) == 1 and isinstance(e.args[0], ast.Tuple):
+            parts = []
+            for x in e.args[0].elts:
+                t, ty = self.ex(x, env, pre, ind)
+                if ty != "vec":
+                    _fail(x, "hstack of something that is not a 1-D array")
+                parts.append(t)
+            return "(" + " ++ ".join(parts) + ")", "vec"
+        if fn == "np.any" and len(e.args) == 1 and isinstance(e.args[0], ast.Call) and _src(e.args[0].func) == "np.isinf":
+            (t,) = self.args(e.args[0], env, pre, ind, ["vec"])
+            return f"({t}.any isinf)", "bool"
+        if fn == "np.zeros" and len(e.args) == 1 and isinstance(e.args[0], ast.Attribute) and e.args[0].attr == "shape":
+            t, ty = self.ex(e.args[0].value, env, pre, ind)
+            if ty != "vec":
+                _fail(e, "zeros of an unsupported shape")
+            return f"(colZeros {t}.length)", "vec"
+        if fn == "_evaluate_coeffs_on_points":
+            x, c = self.args(e, env, pre, ind, ["K", "coeffs"])
+            return f"(evaluateCoeffsOnPoints {x} {c})", "vec"
+        if fn == "_rearrange_to_explicit_ode":
+            y, b, f = self.args(e, env, pre, ind, ["vec", "vec", "K"])
+            return self.bind_opt(f"rearrangeToExplicitOde {y} {b} {f}", pre, ind), "K"
+        if fn == "_transform_and_rearrange_to_explicit_ode":
+            a = self.args(e, env, pre, ind, ["K", "vec", "coeffs", "tf", "fn"])
+            return self.bind_opt("transformAndRearrange " + " ".join(a), pre, ind), "K"
+        if fn == "_derivative_transformation_matrix":
+            l, p, n = self.args(e, env, pre, ind, ["fns", "K", "nat"])
+            if self.monad == "exc":
+                pre.append(f"{ind}if derivMatrixRaises {n} {l}.length then throw .valueError")
+            else:
+                pre.append(f"{ind}if derivMatrixRaises {n} {l}.length then none")
+            return f"(derivativeTransformationMatrix {l} {p} {n})", ("mat", n)
+        if fn == "solve":
+            if len(e.args) != 2 or e.keywords:
+                _fail(e, "unexpected arguments of scipy.linalg.solve")
+            m, mty = self.ex(e.args[0], env, pre, ind)
+            v, vty = self.ex(e.args[1], env, pre, ind)
+            if not (isinstance(mty, tuple) and mty[0] == "mat") or vty != "vec":
+                _fail(e, "unexpected arguments of scipy.linalg.solve")
+            return f"(solve {m} {v})", "vec"
+        if fn == "solve_ivp":
+            want = {"y0": None, "dense_output": "True", "vectorized": "True", "rtol": "rtol", "atol": "atol", "method": "method"}
+            kws = {k.arg: k.value for k in e.keywords}
+            if set(kws) != set(want) or any(v is not None and _src(kws[k]) != v for k, v in want.items()):
+                _fail(e, "keyword arguments of scipy's solve_ivp changed")
+            f, sp = self.args(ast.Call(func=e.func, args=e.args, keywords=[]), env, pre, ind, ["func", "vec"])
+            y0, ty = self.ex(kws["y0"], env, pre, ind)
+            if ty != "vec":
+                _fail(e, "y0 is not a 1-D array")
+            self.kwrecord["solve_ivp"] = sorted(want)
+            return f"(solve_ivp {f} {sp} {y0})", "res"
+        if fn == "solve_bvp":
+            want = {"y": "initial_guess_y", "tol": "tol", "max_nodes": "max_nodes"}
+            kws = {k.arg: k.value for k in e.keywords}
+            if set(kws) != set(want) or any(_src(kws[k]) != v for k, v in want.items()):
+                _fail(e, "keyword arguments of scipy's solve_bvp changed")
+            f, b, x = self.args(ast.Call(func=e.func, args=e.args, keywords=[]), env, pre, ind, ["func", "bc", "vec"])
+            self.kwrecord["solve_bvp"] = sorted(want)
+            return f"(solve_bvp {f} {b} {x})", "res"
+        if fn == "_transform_solution_to_original_domain":
+            a = self.args(e, env, pre, ind, ["res", "tf", "bool", "nat"])
+            return "(transformSolutionToOriginalDomain " + " ".join(a) + ")", "callable"
+        # methods
+        if isinstance(e.func, ast.Attribute) and len(e.args) == 1 and not e.keywords:
+            o, oty = self.ex(e.func.value, env, pre, ind)
+            a, aty = self.ex(e.args[0], env, pre, ind)
+            if oty == "tf" and e.func.attr in ("transform", "inverse", "deriv", "deriv2", "deriv3"):
+                if aty == "K":
+                    return f"({o}.{e.func.attr} {a})", "K"
+                if aty == "vec":
+                    return f"({a}.map {o}.{e.func.attr})", "vec"
+            if oty == "res" and e.func.attr == "sol" and aty == "K":
+                return f"({o}.sol {a})", "vec"
+            if isinstance(oty, tuple) and oty[0] == "mat" and e.func.attr == "dot" and aty == "vec":
+                return self.bind_opt(f"matDot {o} {oty[1]} {a}", pre, ind), "vec"
+            _fail(e, "unsupported method call")
+        # a plain callable K → K
+        if isinstance(e.func, ast.Name) and len(e.args) == 1 and not e.keywords:
+            f, fty = self.ex(e.func, env, pre, ind)
+            a, aty = self.ex(e.args[0], env, pre, ind)
+            if fty == "fn" and aty == "K":
+                return f"({f} {a})", "K"
+        _fail(e, f"{self.fname}: unsupported call")
+
+    # ---- statements --------------------------------------------------------------------------------
+    def pure(self, text):
+        return f"pure {text}"
+
+    def is_transform_test(self, test, env):
+        """`if transform:` / `if transform is not None:` on the optional transform -> its python name"""
+        if isinstance(test, ast.Name) and env.get(test.id, (None, None))[1] == "tfopt":
+            return test.id
+        if (isinstance(test, ast.Compare) and len(test.ops) == 1 and isinstance(test.ops[0], ast.IsNot)
+                and isinstance(test.left, ast.Name) and env.get(test.left.id, (None, None))[1] == "tfopt"
+                and isinstance(test.comparators[0], ast.Constant) and test.comparators[0].value is None):
+            return test.left.id
+        return None
+
+    @staticmethod
+    def assigned(stmts):
+        out = []
+        for s in stmts:
+            if isinstance(s, ast.Assign) and len(s.targets) == 1 and isinstance(s.targets[0], ast.Name):
+                if s.targets[0].id not in out:
+                    out.append(s.targets[0].id)
+        return out
+
+    @staticmethod
+    def ends_with_return(stmts):
+        return bool(stmts) and isinstance(stmts[-1], ast.Return)
+
+    def block(self, stmts, env, ind, skip=(), extract=None):
+        """-> lines.  `env` is updated in place.  The block must end with a return unless it is a branch whose
+        live-out variables are handled by the caller."""
+        out = []
+        stmts = list(stmts)
+        k = 0
+        while k < len(stmts):
+            s = stmts[k]
+            k += 1
+            src = _src(s)
+            if src in skip:
+                out.append(f"{ind}-- not carried ({skip[src]}): {src.splitlines()[0]}")
+                continue
+            if isinstance(s, ast.FunctionDef):
+                if s.name not in self.closures:
+                    _fail(s, "unexpected nested function")
+                continue
+            pre = []
+            if isinstance(s, ast.Return):
+                t, ty = self.ex(s.value, env, pre, ind)
+                if ty == "K" and getattr(self, "scalar_return_as_column", False):
+                    t = f"[{t}]"
+                out += pre + [f"{ind}{self.pure(t)}"]
+                if k != len(stmts):
+                    _fail(stmts[k], "statement after return")
+                return out
+            if isinstance(s, ast.Assign) and len(s.targets) == 1 and isinstance(s.targets[0], ast.Name):
+                n = s.targets[0].id
+                t, ty = self.ex(s.value, env, pre, ind)
+                out += pre + [f"{ind}let {n} := {t}"]
+                env[n] = (n, ty)
+                continue
+            # column assignments of the back-transformation
+            if isinstance(s, ast.Assign) and len(s.targets) == 1 and isinstance(s.targets[0], ast.Subscript):
+                tg = s.targets[0]
+                if not (isinstance(tg.value, ast.Name) and env.get(tg.value.id, (None, None))[1] == "vec"
+                        and isinstance(tg.slice, ast.Tuple) and len(tg.slice.elts) == 2):
+                    _fail(s, "unsupported assignment target")
+                n = tg.value.id
+                row, col = tg.slice.elts
+                v, vty = self.ex(s.value, env, pre, ind)
+                whole = isinstance(col, ast.Slice) and col.lower is None and col.upper is None and col.step is None
+                at_i = self.colvar and isinstance(col, ast.Name) and col.id == self.colvar[0]
+                if _int_const(row) == 0 and whole and vty == "K" and not self.colvar:
+                    t = self.bind_opt(f"setRow0 {n} {v}", pre, ind)
+                elif (isinstance(row, ast.Slice) and _int_const(row.lower) == 1 and row.upper is None and row.step is None
+                      and at_i and vty == "vec"):
+                    t = self.bind_opt(f"setRowsFrom1 {n} {v}", pre, ind)
+                else:
+                    _fail(s, "assignment does not address row 0 of all points / rows 1: of the current point")
+                out += pre + [f"{ind}let {n} := {t}"]
+                continue
+            if isinstance(s, ast.If):
+                # guard
+                if not s.orelse and len(s.body) == 1 and isinstance(s.body[0], ast.Raise):
+                    exc = s.body[0].exc
+                    name = _src(exc.func) if isinstance(exc, ast.Call) else _src(exc)
+                    if name not in ERR or self.monad != "exc":
+                        _fail(s, "unsupported raise")
+                    t, ty = self.ex(s.test, env, pre, ind)
+                    if ty != "bool":
+                        _fail(s.test, "guard is not a condition")
+                    out += pre + [f"{ind}if {t} then throw {ERR[name]}"]
+                    continue
+                tv = self.is_transform_test(s.test, env)
+                rest = stmts[k:]
+                if tv is not None:
+                    inner = dict(env)
+                    tl = tv + "_"          # Lean name of the transform object inside the branch
+                    inner[tv] = (tl, "tf")
+                    if self.ends_with_return(s.body) and not s.orelse:
+                        # if transform is not None: return A      (rest of the block is the `none` branch)
+                        out.append(f"{ind}match {tv} with")
+                        out.append(f"{ind}| some {tl} => do")
+                        out += self.block(s.body, inner, ind + "  ", skip)
+                        out.append(f"{ind}| none => do")
+                        out += self.block(rest, dict(env), ind + "  ", skip)
+                        return out
+                    live = self.assigned(s.body)
+                    if s.orelse:
+                        # variables that survive the branch: assigned on both sides (the others are branch-local)
+                        live = [x for x in live if x in self.assigned(s.orelse)]
+                    else:
+                        live = [x for x in live if x in env]
+                    if not live:
+                        _fail(s, "branch on the transform without effect")
+                    tup = live[0] if len(live) == 1 else "(" + ", ".join(live) + ")"
+                    if extract and not s.orelse:
+                        # the branch becomes a definition of its own
+                        hname, hdoc = extract
+                        free = [n for n in env if any(isinstance(x, ast.Name) and x.id == n for b in s.body for x in ast.walk(b))]
+                        henv = {n: env[n] for n in free}
+                        henv[tv] = (tv, "tf")
+                        hlines = self.block(s.body + [ast.Return(value=ast.Tuple(elts=[ast.Name(id=x) for x in live]))],
+                                            henv, "  ", skip)
+                        self.helpers.append((hname, hdoc, free, {n: (env[n] if n != tv else (tv, "tf")) for n in free},
+                                             [henv[x][1] for x in live], hlines))
+                        out.append(f"{ind}let {tup} ← match {tv} with")
+                        out.append(f"{ind}  | some {tl} => {hname} " + " ".join(["solve", "isinf"] + [tl if n == tv else n for n in free]))
+                        out.append(f"{ind}  | none => pure {tup}")
+                        for x, ty in zip(live, [henv[x][1] for x in live]):
+                            env[x] = (x, ty)
+                        continue
+                    out.append(f"{ind}let {tup} ← match {tv} with")
+                    out.append(f"{ind}  | some {tl} => do")
+                    benv = dict(inner)
+                    out += self.block(s.body + [ast.Return(value=ast.Tuple(elts=[ast.Name(id=x) for x in live]) if len(live) > 1
+                                                         else ast.Name(id=live[0]))], benv, ind + "    ", skip)
+                    out.append(f"{ind}  | none => do")
+                    if s.orelse:
+                        eenv = dict(env)
+                        out += self.block(s.orelse + [ast.Return(value=ast.Tuple(elts=[ast.Name(id=x) for x in live]) if len(live) > 1
+                                                               else ast.Name(id=live[0]))], eenv, ind + "    ", skip)
+                        for x in live:
+                            if benv[x][1] != eenv[x][1]:
+                                _fail(s, f"`{x}` has different kinds in the two branches")
+                    else:
+                        out.append(f"{ind}    pure {tup}")
+                    for x in live:
+                        env[x] = (x, benv[x][1])
+                    continue
+                # if <bool>: … return …      (rest = else)
+                t, ty = self.ex(s.test, env, pre, ind)
+                if ty == "bool" and self.ends_with_return(s.body) and not s.orelse:
+                    out += pre + [f"{ind}if {t} then do"]
+                    out += self.block(s.body, dict(env), ind + "  ", skip)
+                    out.append(f"{ind}else do")
+                    out += self.block(rest, dict(env), ind + "  ", skip)
+                    return out
+                _fail(s, "unsupported `if`")
+            if isinstance(s, ast.For):
+                if s.orelse:
+                    _fail(s, "for-else")
+                out += self.loop(s, env, ind, skip)
+                continue
+            _fail(s, f"{self.fname}: unsupported statement")
+        return out
+
+    def ex_tuple(self, e, env, pre, ind):
+        items = [self.ex(x, env, pre, ind) for x in e.elts]
+        return "(" + ", ".join(t for t, _ in items) + ")", tuple(ty for _, ty in items)
+
+    def loop(self, s, env, ind, skip):
+        _fail(s, f"{self.fname}: unsupported loop")
+
+
+# make `Return (a, b)` of the synthetic branch ends work
+_orig_ex = Comp.ex
+
+
+def _ex(self, e, env, pre, ind):
+    if isinstance(e, ast.Tuple):
+        return self.ex_tuple(e, env, pre, ind)
+    return _orig_ex(self, e, env, pre, ind)
+
+
+Comp.ex = _ex
+
+
+def _sig(params, env):
+    out = []
+    for n in params:
+        ty = env[n][1]
+        out.append(f"({n} : {LEAN_TY[ty[0] if isinstance(ty, tuple) else ty]})")
+    return " ".join(out)
+
+
+def _nested(f, name):
+    for s in f.body:
+        if isinstance(s, ast.FunctionDef) and s.name == name:
+            return s
+    raise Untranslatable(f"{f.name}: nested function {name} not found")
+
+
+FUNC_DOC = {
+    "ivp": "/-- `func(x, y)` of `solve_ode_ivp`, one point: `x` is the integrator's independent variable (with a transform: "
+           "`r = g(x)`),\n`y` the column `[Y₀, …, Y_{K-1}]`; the answer is the column of derivatives. -/",
+    "bvp": "/-- `func(x, y)` of `solve_ode_bvp`, one mesh point. -/",
+}
+
+
+def translate_func(outer, which, skip):
+    """the nested `func` of solve_ode_ivp / solve_ode_bvp"""
+    f = _nested(outer, "func")
+    if [a.arg for a in f.args.args] != ["x", "y"]:
+        _fail(f, "func: unexpected signature")
+    free = ["coeffs", "transform", "fx"]
+    env = {"coeffs": ("coeffs", "coeffs"), "transform": ("transform", "tfopt"), "fx": ("fx", "fn"),
+           "x": ("x", "K"), "y": ("y", "vec")}
+    used = {n.id for n in ast.walk(f) if isinstance(n, ast.Name)}
+    extra = used - set(env) - {"np", "dy_dx", "orig_dom", "coeffs_mt", "_transform_and_rearrange_to_explicit_ode",
+                               "_evaluate_coeffs_on_points", "_rearrange_to_explicit_ode"}
+    if extra:
+        _fail(f, f"func reads names the model does not know: {sorted(extra)}")
+    c = Comp(f"{outer.name}.func", "opt")
+    lines = c.block(_body(f), env, "  ", skip)
+    name = f"{which}Func"
+    return [FUNC_DOC[which],
+            f"def {name} (coeffs : List (Coeff K)) (transform : Option (TransformFns K)) (fx : K → K) (x : K) (y : List K) :",
+            "    Option (List K) := do"] + lines + [""], name
+
+
+class BcComp(Comp):
+    def loop(self, s, env, ind, skip):
+        # conds = []; for i, deriv, value in bd_cond: conds.append(<expr>)
+        if not (isinstance(s.target, ast.Tuple) and len(s.target.elts) == 3 and all(isinstance(x, ast.Name) for x in s.target.elts)
+                and isinstance(s.iter, ast.Name) and env.get(s.iter.id, (None, None))[1] == "bd" and len(s.body) == 1):
+            _fail(s, "bc: unsupported loop")
+        i, d, v = (x.id for x in s.target.elts)
+        st = s.body[0]
+        if not (isinstance(st, ast.Expr) and isinstance(st.value, ast.Call) and isinstance(st.value.func, ast.Attribute)
+                and st.value.func.attr == "append" and isinstance(st.value.func.value, ast.Name)
+                and env.get(st.value.func.value.id) == (st.value.func.value.id, "acc") and len(st.value.args) == 1):
+            _fail(st, "bc: loop body is not `<list>.append(<expr>)`")
+        acc = st.value.func.value.id
+        inner = dict(env)
+        inner.update({i: (i, "nat"), d: (d, "nat"), v: (v, "K")})
+        pre = []
+        t, ty = self.ex(st.value.args[0], inner, pre, ind + "    ")
+        if ty != "K":
+            _fail(st, "bc: appended value is not a number")
+        env[acc] = (acc, "vec")
+        return ([f"{ind}let {acc} ← {s.iter.id}.mapM fun (c : Nat × Nat × K) => do",
+                 f"{ind}    let {i} := c.1", f"{ind}    let {d} := c.2.1", f"{ind}    let {v} := c.2.2"]
+                + pre + [f"{ind}    pure {t}"])
+
+    def block(self, stmts, env, ind, skip=(), extract=None):
+        # `conds = []` introduces the accumulator
+        stmts = list(stmts)
+        out = []
+        while stmts and isinstance(stmts[0], ast.Assign) and isinstance(stmts[0].value, ast.List) and not stmts[0].value.elts:
+            env[stmts[0].targets[0].id] = (stmts[0].targets[0].id, "acc")
+            stmts.pop(0)
+        # the accumulator may also be introduced after other assignments
+        rest = []
+        for s in stmts:
+            if isinstance(s, ast.Assign) and isinstance(s.value, ast.List) and not s.value.elts and len(s.targets) == 1 \
+                    and isinstance(s.targets[0], ast.Name):
+                env[s.targets[0].id] = (s.targets[0].id, "acc")
+                continue
+            rest.append(s)
+        return out + Comp.block(self, rest, env, ind, skip, extract)
+
+
+def translate_bc(outer):
+    f = _nested(outer, "bc")
+    if [a.arg for a in f.args.args] != ["ya", "yb"]:
+        _fail(f, "bc: unexpected signature")
+    env = {"bd_cond": ("bd_cond", "bd"), "ya": ("ya", "vec"), "yb": ("yb", "vec")}
+    c = BcComp("solve_ode_bvp.bc", "opt")
+    body = _body(f)
+    # `return np.array(conds)`
+    if not (isinstance(body[-1], ast.Return) and isinstance(body[-1].value, ast.Call) and _src(body[-1].value.func) == "np.array"):
+        _fail(body[-1], "bc: unexpected return")
+    lines = c.block(body, env, "  ")
+    return ["/-- `bc(ya, yb)` of `solve_ode_bvp`: one residual per entry `(i, deriv, value)` of `bd_cond`\n"
+            "(non-negative indices; out of range = IndexError = `none`). -/",
+            "def bvpBc (bd_cond : List (Nat × Nat × K)) (ya yb : List K) : Option (List K) := do"] + lines + [""]
+
+
+class ColComp(Comp):
+    """`interpolate_wrt_original_var(pt)` for one entry `pt_i` of `pt` (one column of every (rows, points) array)."""
+
+    def loop(self, s, env, ind, skip):
+        if not (isinstance(s.target, ast.Name) and _src(s.iter) == "range(interpolated.shape[1])"):
+            _fail(s, "loop is not over the points (`range(interpolated.shape[1])`)")
+        inner = ColComp(self.fname, self.monad, self.closures, colvar=(s.target.id, "pt"))
+        inner.ntmp = self.ntmp
+        lines = Comp.block(inner, s.body, env, ind, skip)
+        self.ntmp = inner.ntmp
+        return lines
+
+
+def translate_back(tree):
+    f = _func(tree, "_transform_solution_to_original_domain")
+    if [a.arg for a in f.args.args] != ["result", "tf", "no_derivs", "order"]:
+        raise Untranslatable("_transform_solution_to_original_domain: unexpected signature")
+    body = _body(f)
+    if not (len(body) == 2 and isinstance(body[0], ast.FunctionDef) and [a.arg for a in body[0].args.args] == ["pt"]
+            and _src(body[1]) == f"return {body[0].name}"):
+        raise Untranslatable("_transform_solution_to_original_domain: unexpected body")
+    env = {"result": ("result", "res"), "tf": ("tf", "tf"), "no_derivs": ("no_derivs", "bool"), "order": ("order", "nat"),
+           "pt": ("pt_i", "K")}
+    c = ColComp("_transform_solution_to_original_domain", "opt")
+    c.scalar_return_as_column = True
+    skip = {"if interpolated.ndim == 1:\n    return interpolated":
+            "scalar argument: the integrator's vector is handed back as it is"}
+    stmts = _body(body[0])
+    # `tf.transform(pt)` on the whole array = per point
+    lines = c.block(stmts, env, "  ", skip)
+    # the `no_derivs` branch returns row 0 (a number per point); the callable's value is modelled as a column
+    return ["/-! ### `_transform_solution_to_original_domain` (one evaluation point `pt_i` of `pt`) -/", "",
+            "/-- The callable returned in the transform branch: `result.sol` is the integrator's dense output (a function of\n"
+            "`r = g(x)`).  With `no_derivs` the value is the single number `interpolated[0]` (returned here as a one-element\n"
+            "column); otherwise rows `1:` are multiplied by the derivative matrix built at the same point `pt[i]`. -/",
+            "def transformSolutionToOriginalDomain (result : SolveResult K) (tf : TransformFns K) (no_derivs : Bool) (order : Nat)",
+            "    (pt_i : K) : Option (List K) := do"] + lines + [""]
+
+
+def _emit_helpers(c, prims):
+    out = []
+    for hname, hdoc, free, fenv, rtys, hlines in c.helpers:
+        ret = " × ".join(LEAN_TY[t] for t in rtys)
+        out += [hdoc, f"def {hname} {prims}", f"    {_sig(free, fenv)} :", f"    Except OdeErr ({ret}) := do"] + hlines + [""]
+    return out
+
+
+PRIM_SOLVE = "(solve : Mat K → List K → List K) (isinf : K → Bool)"
+
+
+def translate_ivp(tree):
+    f = _func(tree, "solve_ode_ivp")
+    params = [a.arg for a in f.args.args]
+    if params != ["x_span", "fx", "coeffs", "y0", "transform", "method", "no_derivatives", "rtol", "atol"]:
+        raise Untranslatable("solve_ode_ivp: unexpected signature")
+    skip = {"x = np.array([x])": "shape plumbing: the scalar `x` becomes a one-point array"}
+    func_lines, fname = translate_func(f, "ivp", skip)
+    env = {"x_span": ("x_span", "vec"), "fx": ("fx", "fn"), "coeffs": ("coeffs", "coeffs"), "y0": ("y0", "vec"),
+           "transform": ("transform", "tfopt"), "no_derivatives": ("no_derivatives", "bool")}
+    c = Comp("solve_ode_ivp", "exc", closures={"func": (f"({fname} coeffs transform fx)", "func")})
+    lines = c.block(_body(f), env, "  ",
+                    extract=("ivpTransformSetup",
+                             "/-- `solve_ode_ivp`, the block `if transform:` before the integrator is called: domain check, the matrix at\n"
+                             "`x_span[0]`, the transformed span, the initial derivatives mapped by `scipy.linalg.solve`; the answer is\n"
+                             "`(x_span, y0)` as handed to `scipy.integrate.solve_ivp`. -/"))
+    out = ["/-! ### `solve_ode_ivp` -/", ""] + func_lines
+    out += ["section ordered", "variable [LT K] [DecidableLT K]", ""]
+    out += _emit_helpers(c, PRIM_SOLVE)
+    out += ["/-- The body of `solve_ode_ivp`.  `solve_ivp func x_span y0` stands for `scipy.integrate.solve_ivp(func, x_span, y0=y0,\n"
+            "dense_output=True, vectorized=True, rtol=…, atol=…, method=…)`, `solve` for `scipy.linalg.solve`, `isinf` for `np.isinf`.\n"
+            "The value is the returned callable, evaluated at one point of the original variable. -/",
+            "def solveOdeIvp (solve_ivp : (K → List K → Option (List K)) → List K → List K → SolveResult K)",
+            f"    {PRIM_SOLVE}",
+            "    (x_span : List K) (fx : K → K) (coeffs : List (Coeff K)) (y0 : List K) (transform : Option (TransformFns K))",
+            "    (no_derivatives : Bool) : Except OdeErr (K → Option (List K)) := do"] + lines + ["", "end ordered", ""]
+    out += ["/-- keyword arguments of the `scipy.integrate.solve_ivp` call (besides `func`, `x_span`). -/",
+            "def solveIvpKeywords : List String := [" + ", ".join(f'"{k}"' for k in c.kwrecord.get("solve_ivp", [])) + "]", ""]
+    return out
+
+
+def translate_bvp(tree):
+    f = _func(tree, "solve_ode_bvp")
+    params = [a.arg for a in f.args.args]
+    if params != ["x", "fx", "coeffs", "bd_cond", "transform", "tol", "max_nodes", "initial_guess_y", "no_derivatives"]:
+        raise Untranslatable("solve_ode_bvp: unexpected signature")
+    func_lines, fname = translate_func(f, "bvp", {})
+    bc_lines = translate_bc(f)
+    env = {"x": ("x", "vec"), "fx": ("fx", "fn"), "coeffs": ("coeffs", "coeffs"), "bd_cond": ("bd_cond", "bd"),
+           "transform": ("transform", "tfopt"), "no_derivatives": ("no_derivatives", "bool")}
+    skip = {"if initial_guess_y is None:\n    initial_guess_y = np.random.rand(order, x.size)":
+            "the starting guess of the iteration is SciPy's business"}
+    c = Comp("solve_ode_bvp", "exc", closures={"func": (f"({fname} coeffs transform fx)", "func"),
+                                               "bc": ("(bvpBc bd_cond)", "bc")})
+    lines = c.block(_body(f), env, "  ", skip)
+    out = ["/-! ### `solve_ode_bvp` -/", ""] + func_lines + bc_lines
+    out += ["/-- The body of `solve_ode_bvp`.  `solve_bvp func bc mesh` stands for `scipy.integrate.solve_bvp(func, bc, mesh,\n"
+            "y=initial_guess_y, tol=tol, max_nodes=max_nodes)`.  The value is the returned callable, evaluated at one point. -/",
+            "def solveOdeBvp (solve_bvp : (K → List K → Option (List K)) → (List K → List K → Option (List K)) → List K → SolveResult K)",
+            "    (x : List K) (fx : K → K) (coeffs : List (Coeff K)) (bd_cond : List (Nat × Nat × K))",
+            "    (transform : Option (TransformFns K)) (no_derivatives : Bool) : Except OdeErr (K → Option (List K)) := do"] + lines + [""]
+    out += ["/-- keyword arguments of the `scipy.integrate.solve_bvp` call (besides `func`, `bc`, the mesh). -/",
+            "def solveBvpKeywords : List String := [" + ", ".join(f'"{k}"' for k in c.kwrecord.get("solve_bvp", [])) + "]", ""]
     return out
 
 
@@ -515,17 +1299,21 @@ def translate():
     tree = ast.parse((SRC / "ode.py").read_text())
     parts = []
     parts += translate_coeffs(tree)
+    parts += translate_eval_coeffs(tree)
     parts += translate_rtransform(tree)
     parts += translate_rearrange(tree)
     parts += translate_compose(tree)
     parts += translate_matrix(tree)
+    parts += translate_back(tree)
+    parts += translate_ivp(tree)
+    parts += translate_bvp(tree)
     return "\n".join(parts)
 
 
 def generate():
-    text = HEADER.format(name="ode", source="src/grid/ode.py (_transform_ode_from_derivs, _transform_ode_from_rtransform, "
-                         "_rearrange_to_explicit_ode, _transform_and_rearrange_to_explicit_ode, "
-                         "_derivative_transformation_matrix)")
+    text = HEADER.format(name="ode", source="src/grid/ode.py (solve_ode_ivp, solve_ode_bvp, _transform_solution_to_original_domain, "
+                         "_transform_ode_from_derivs, _transform_ode_from_rtransform, _transform_and_rearrange_to_explicit_ode, "
+                         "_derivative_transformation_matrix, _evaluate_coeffs_on_points, _rearrange_to_explicit_ode)")
     text += ("import GridVerif.Model.Elem\nimport GridVerif.Model.Ode\n\nset_option linter.unusedVariables false\n\n"
              "namespace GridVerif.Gen.Ode\nopen GridVerif GridVerif.Ode\n\n"
              "variable {K : Type} [Add K] [Sub K] [Mul K] [Div K] [Neg K] [NatCast K]\n\n")
